@@ -23,6 +23,7 @@ def run(ctx: Ctx, chk) -> None:
     chk.run_rule(order1, ctx)
     chk.run_rule(delim2, ctx)
     norm1(ctx, chk, "NORM-1")
+    chk.run_rule(stateless1, ctx)
 
 
 def delim1(ctx: Ctx, chk) -> None:
@@ -256,3 +257,73 @@ def norm1(ctx: Ctx, chk, rule: str) -> None:
             chk.ok(rule, key, f"{fname}: {kind}", loc, sample=False)
         else:
             chk.refute(rule, key, f"{fname} is declared as {kind}: the decoded value would not be the {'text' if fname == 'payload' else 'integer'} the line spells", loc)
+
+
+CACHE_DECORATORS = ("cache", "lru_cache", "cached_property", "functools.cache", "functools.lru_cache", "functools.cached_property")
+
+
+def stateless1(ctx: Ctx, chk) -> None:
+    rule = "STATELESS-1"
+    chk.rule(rule, "the codec keeps no state between calls: decoding builds a fresh Message from the line every time (no attribute of the schema or of a field other than context['protocol'] is written after construction, no memoising decorator on a codec function, no module-level cache) - a remembered result would hand out the same mutable Message twice")
+    I = ctx.I
+    mod = ctx.module(codec.MESSAGE_MOD)
+    n = 0
+    codec_funcs = [f for f in ctx.prog.all_functions() if f.module is mod]
+    for f in codec_funcs:
+        n += 1
+        chk.instance(rule)
+        bad = None
+        for d in f.decorator_names:
+            if d.split("(")[0] in CACHE_DECORATORS:
+                bad = (f.node, f"is memoised with @{d}")
+        is_ctor = f.name == "__init__" and f.cls is not None and f.cls.fq == codec.MESSAGE
+        for node in ctx.own_nodes(f):
+            if bad:
+                break
+            targets = []
+            if isinstance(node, ast.Assign):
+                targets = node.targets
+            elif isinstance(node, (ast.AugAssign, ast.AnnAssign)):
+                targets = [node.target]
+            for t in targets:
+                base = t
+                while isinstance(base, ast.Subscript):
+                    base = base.value
+                if isinstance(base, ast.Attribute):
+                    root = base
+                    while isinstance(root, ast.Attribute):
+                        root = root.value
+                    owner = norm(base)
+                    if isinstance(root, ast.Name) and root.id in ("self", "cls") and not is_ctor:
+                        if owner == "self.context" and isinstance(t, ast.Subscript) and f.name == "set_protocol":
+                            continue
+                        bad = (node, f"stores into `{norm(t)[:60]}`")
+                    elif isinstance(root, ast.Name) and root.id in mod.consts:
+                        bad = (node, f"stores into the module-level `{norm(t)[:60]}`")
+                elif isinstance(base, ast.Name) and isinstance(t, ast.Subscript) and base.id in mod.consts:
+                    bad = (node, f"stores into the module-level `{norm(t)[:60]}`")
+            if isinstance(node, ast.Call) and isinstance(node.func, ast.Attribute) and node.func.attr in ("setdefault", "update", "append", "add", "__setitem__"):
+                root = node.func.value
+                while isinstance(root, (ast.Attribute, ast.Subscript)):
+                    root = root.value
+                if isinstance(root, ast.Name) and ((root.id in ("self", "cls") and not is_ctor) or root.id in mod.consts):
+                    bad = (node, f"mutates `{norm(node.func.value)[:60]}`")
+            if isinstance(node, ast.Global):
+                bad = (node, f"rebinds module globals {node.names}")
+        key = f"{f.fq}::stateless"
+        if bad is None:
+            chk.ok(rule, key, "no state written", f.where, sample=n <= 2)
+        else:
+            chk.refute(rule, key, f"{f.qualname} {bad[1]}: the codec remembers something between calls, so two decodes can return the same (mutable) Message object or a stale result", ctx.loc(f, bad[0]))
+    chk.floor(rule, "codec functions", n, 8)
+    # the decode entry point is marshmallow's own load(): an override that adds behaviour is examined above;
+    # post_load must construct (not look up) the result
+    schema, hooks = schema_hooks(ctx)
+    chk.instance(rule)
+    pl = hooks["post_load"][0]
+    rets = [r for r in ctx.own_nodes(pl) if isinstance(r, ast.Return)]
+    fresh = all(isinstance(r.value, ast.Call) and norm(r.value.func) == "Message" for r in rets) and bool(rets)
+    if fresh:
+        chk.ok(rule, f"{pl.fq}::fresh", "every decode constructs a new Message", pl.where, sample=False)
+    else:
+        chk.refute(rule, f"{pl.fq}::fresh", "post_load does not construct a new Message for every decode", pl.where)
